@@ -182,34 +182,36 @@ theorem commonperp_spec (hs : P.Sqrt) (L M C : Vec 6 R) (hcL : dot (mom L) (dir 
   set x3 := L 4 * M 5 - L 5 * M 4 with hx3
   have hd0 : 0 ≤ x3 * x3 + x2 * x2 + x1 * x1 := add_nonneg (add_nonneg (mul_self_nonneg _) (mul_self_nonneg _)) (mul_self_nonneg _)
   have hss := hs.mul_self _ hd0
-  split_ifs at h with hsmall
-  have hd' : x3 * x3 + x2 * x2 + x1 * x1 ≠ 0 := by
-    intro e; rw [e] at hss hsmall
-    have : P.sqrt 0 = 0 := mul_self_eq_zero.mp hss
-    rw [this] at hsmall; exact hsmall (by positivity)
-  generalize hd : x3 * x3 + x2 * x2 + x1 * x1 = d at *
-  set x6 := (L 0 * M 3 + L 1 * M 4 + L 2 * M 5 + (M 0 * L 3 + M 1 * L 4 + M 2 * L 5)) * (L 3 * M 3 + L 4 * M 4 + L 5 * M 5) with hx6
-  have hk0 : x6 * x3 / d * d = x6 * x3 := by field_simp
-  have hk1 : x6 * x2 / d * d = x6 * x2 := by field_simp
-  have hk2 : x6 * x1 / d * d = x6 * x1 := by field_simp
-  generalize x6 * x3 / d = k0 at *
-  generalize x6 * x2 / d = k1 at *
-  generalize x6 * x1 / d = k2 at *
-  cases h
-  simp only [recip, dot, mom, dir, Fin.sum_univ_three, v3_0, v3_1, v3_2, v6_0, v6_1, v6_2, v6_3, v6_4, v6_5]
-  refine ⟨?_, ?_, ?_, ?_, ?_, ?_⟩
-  · apply mul_right_cancel₀ hd'
-    simp only [hx1, hx2, hx3, hx6] at *
-    linear_combination x3 * hk0 + x2 * hk1 + x1 * hk2 + x6 * hd + d * ((M 3 ^ 2 + M 4 ^ 2 + M 5 ^ 2) * hcL + (L 3 ^ 2 + L 4 ^ 2 + L 5 ^ 2) * hcM)
-  · simp only [hx1, hx2, hx3]; ring
-  · simp only [hx1, hx2, hx3]; ring
-  · apply mul_right_cancel₀ hd'
-    simp only [hx1, hx2, hx3, hx6] at *
-    linear_combination (L 5) * hk2 + (L 4) * hk1 + (L 3) * hk0
-  · apply mul_right_cancel₀ hd'
-    simp only [hx1, hx2, hx3, hx6] at *
-    linear_combination (M 5) * hk2 + (M 4) * hk1 + (M 3) * hk0
-  · apply Vec.ext3 <;> simp [cross3, hx1, hx2, hx3]
+  split_ifs at h with hbig hsmall hsmall
+  all_goals (
+    have hd' : x3 * x3 + x2 * x2 + x1 * x1 ≠ 0 := by
+      intro e; rw [e] at hss hsmall
+      have : P.sqrt 0 = 0 := mul_self_eq_zero.mp hss
+      rw [this] at hsmall
+      first | exact hsmall (by positivity) | exact hsmall (mul_pos (by norm_num) (lt_trans one_pos hbig))
+    generalize hd : x3 * x3 + x2 * x2 + x1 * x1 = d at *
+    set x6 := (L 0 * M 3 + L 1 * M 4 + L 2 * M 5 + (M 0 * L 3 + M 1 * L 4 + M 2 * L 5)) * (L 3 * M 3 + L 4 * M 4 + L 5 * M 5) with hx6
+    have hk0 : x6 * x3 / d * d = x6 * x3 := by field_simp
+    have hk1 : x6 * x2 / d * d = x6 * x2 := by field_simp
+    have hk2 : x6 * x1 / d * d = x6 * x1 := by field_simp
+    generalize x6 * x3 / d = k0 at *
+    generalize x6 * x2 / d = k1 at *
+    generalize x6 * x1 / d = k2 at *
+    cases h
+    simp only [recip, dot, mom, dir, Fin.sum_univ_three, v3_0, v3_1, v3_2, v6_0, v6_1, v6_2, v6_3, v6_4, v6_5]
+    refine ⟨?_, ?_, ?_, ?_, ?_, ?_⟩
+    · apply mul_right_cancel₀ hd'
+      simp only [hx1, hx2, hx3, hx6] at *
+      linear_combination x3 * hk0 + x2 * hk1 + x1 * hk2 + x6 * hd + d * ((M 3 ^ 2 + M 4 ^ 2 + M 5 ^ 2) * hcL + (L 3 ^ 2 + L 4 ^ 2 + L 5 ^ 2) * hcM)
+    · simp only [hx1, hx2, hx3]; ring
+    · simp only [hx1, hx2, hx3]; ring
+    · apply mul_right_cancel₀ hd'
+      simp only [hx1, hx2, hx3, hx6] at *
+      linear_combination (L 5) * hk2 + (L 4) * hk1 + (L 3) * hk0
+    · apply mul_right_cancel₀ hd'
+      simp only [hx1, hx2, hx3, hx6] at *
+      linear_combination (M 5) * hk2 + (M 4) * hk1 + (M 3) * hk0
+    · apply Vec.ext3 <;> simp [cross3, hx1, hx2, hx3])
 
 /-- the raw reciprocal product of two lines through p and q is the triple product (w₁ × w₂) · (q − p) -/
 theorem recip_eq_triple (L M : Vec 6 R) (p q : Vec 3 R) (hp : OnLine L p) (hq : OnLine M q) :
@@ -220,10 +222,12 @@ theorem recip_eq_triple (L M : Vec 6 R) (p q : Vec 3 R) (hp : OnLine L p) (hq : 
   simp only [recip, dot, cross3, mom, dir, Fin.sum_univ_three, v3_0, v3_1, v3_2]
   linear_combination (-M 3) * p0 + (-M 4) * p1 + (-M 5) * p2 + (-L 3) * q0 + (-L 4) * q1 + (-L 5) * q2
 
-/-- distance between two skew lines: |(w₁ × w₂) · (q − p)| / ‖w₁ × w₂‖ for any points p, q on them (or 0 when the code decides they meet) -/
+/-- distance between two skew lines: |(w₁ × w₂) · (q − p)| / ‖w₁ × w₂‖ for any points p, q on them (or 0 when the code decides they meet);
+    "not parallel" is the code's own test: ‖w₁ × w₂‖ ≥ tol · max(1, ‖w₁‖‖w₂‖) -/
 theorem distance_skew (L M : Vec 6 R) (p q : Vec 3 R) (hp : OnLine L p) (hq : OnLine M q) (d : R)
     (h : Gen.Plucker_distance P L M = .ok d)
-    (hnp : ¬ P.sqrt (dot (cross3 (dir L) (dir M)) (cross3 (dir L) (dir M))) < 5 / 2251799813685248) :
+    (hnp : ¬ P.sqrt (dot (cross3 (dir L) (dir M)) (cross3 (dir L) (dir M))) <
+        5 / 2251799813685248 * max 1 (P.sqrt (L 3 * L 3 + L 4 * L 4 + L 5 * L 5) * P.sqrt (M 3 * M 3 + M 4 * M 4 + M 5 * M 5))) :
     d = 0 ∨ d * P.sqrt (dot (cross3 (dir L) (dir M)) (cross3 (dir L) (dir M))) = |dot (cross3 (dir L) (dir M)) (fun i => q i - p i)| ∨
       P.sqrt (dot (cross3 (dir L) (dir M)) (cross3 (dir L) (dir M))) = 0 := by
   have hr := recip_eq_triple L M p q hp hq
@@ -232,15 +236,29 @@ theorem distance_skew (L M : Vec 6 R) (p q : Vec 3 R) (hp : OnLine L p) (hq : On
       (L 4 * M 5 - L 5 * M 4) * (L 4 * M 5 - L 5 * M 4) + (L 5 * M 3 - L 3 * M 5) * (L 5 * M 3 - L 3 * M 5) + (L 3 * M 4 - L 4 * M 3) * (L 3 * M 4 - L 4 * M 3) := by
     simp [dot, cross3, dir, Fin.sum_univ_three]
   rw [e] at hnp ⊢
-  rw [if_neg hnp] at h
-  split_ifs at h with h1 h2 h3 <;> cases h
-  · left; rfl
-  · by_cases hz : P.sqrt ((L 4 * M 5 - L 5 * M 4) * (L 4 * M 5 - L 5 * M 4) + (L 5 * M 3 - L 3 * M 5) * (L 5 * M 3 - L 3 * M 5) + (L 3 * M 4 - L 4 * M 3) * (L 3 * M 4 - L 4 * M 3)) = 0
+  have fin : ∀ d' : R, d' = |L 3 * M 0 + L 4 * M 1 + L 5 * M 2 + (M 3 * L 0 + M 4 * L 1 + M 5 * L 2)| /
+      P.sqrt ((L 4 * M 5 - L 5 * M 4) * (L 4 * M 5 - L 5 * M 4) + (L 5 * M 3 - L 3 * M 5) * (L 5 * M 3 - L 3 * M 5) + (L 3 * M 4 - L 4 * M 3) * (L 3 * M 4 - L 4 * M 3)) →
+      d' = 0 ∨ d' * P.sqrt ((L 4 * M 5 - L 5 * M 4) * (L 4 * M 5 - L 5 * M 4) + (L 5 * M 3 - L 3 * M 5) * (L 5 * M 3 - L 3 * M 5) + (L 3 * M 4 - L 4 * M 3) * (L 3 * M 4 - L 4 * M 3)) =
+        |dot (cross3 (dir L) (dir M)) (fun i => q i - p i)| ∨
+      P.sqrt ((L 4 * M 5 - L 5 * M 4) * (L 4 * M 5 - L 5 * M 4) + (L 5 * M 3 - L 3 * M 5) * (L 5 * M 3 - L 3 * M 5) + (L 3 * M 4 - L 4 * M 3) * (L 3 * M 4 - L 4 * M 3)) = 0 := by
+    intro d' hd'
+    by_cases hz : P.sqrt ((L 4 * M 5 - L 5 * M 4) * (L 4 * M 5 - L 5 * M 4) + (L 5 * M 3 - L 3 * M 5) * (L 5 * M 3 - L 3 * M 5) + (L 3 * M 4 - L 4 * M 3) * (L 3 * M 4 - L 4 * M 3)) = 0
     · right; right; exact hz
     · right; left
-      rw [div_mul_cancel₀ _ hz, ← hr]
+      rw [hd', div_mul_cancel₀ _ hz, ← hr]
       simp only [recip, dot, mom, dir, Fin.sum_univ_three, v3_0, v3_1, v3_2]
       congr 1; ring
+  by_cases hbig : P.sqrt (L 3 * L 3 + L 4 * L 4 + L 5 * L 5) * P.sqrt (M 3 * M 3 + M 4 * M 4 + M 5 * M 5) > 1
+  · rw [max_eq_right (le_of_lt hbig)] at hnp
+    rw [if_pos hbig, if_neg hnp] at h
+    split_ifs at h with h1 h2 h3 <;> cases h
+    · left; rfl
+    · exact fin _ rfl
+  · rw [max_eq_left (not_lt.mp hbig), mul_one] at hnp
+    rw [if_neg hbig, if_neg hnp] at h
+    split_ifs at h with h1 h2 h3 <;> cases h
+    · left; rfl
+    · exact fin _ rfl
 
 /-- transforming a line by a rigid motion gives the line through the transformed points, with rotated direction -/
 theorem SE3_mul_line (M : Mat 3 3 R) (t : Vec 3 R) (hM : IsSO3 M) (L L' : Vec 6 R)
